@@ -42,6 +42,7 @@ import (
 	"bytes"
 	"context"
 	"crypto/sha256"
+	"encoding/binary"
 	"errors"
 	"fmt"
 	"os"
@@ -158,6 +159,12 @@ func (x *cowCtx) Err() error {
 		return context.Canceled
 	}
 	return nil
+}
+
+// wouldWait: the header id (first field of the header, whatever the rest looks like) is beyond precommitted+1, so
+// the real code may wait for the predecessor.
+func wouldWait(data []byte, precommitted uint64) bool {
+	return len(data) >= 12 && binary.BigEndian.Uint64(data[4:]) > precommitted+1
 }
 
 const watchdog = 30 * time.Second // an event that blocks this long in a sequential world is a deadlock
@@ -680,7 +687,7 @@ func (w *sworld) deliver(ev event) {
 	before := w.skey()
 	var ctx context.Context = &cowCtx{Context: context.Background()}
 	cancel := func() {}
-	if ev.dec == nil || ev.dec.ID <= pp+1 {
+	if !wouldWait(ev.data, pp) {
 		ctx, cancel = bgCtx()
 	}
 	var hdr *store.TxHeader
